@@ -44,15 +44,22 @@ func H_C18_Admission() {
 	m := f.m
 	f.alive = &vAliveRec{}
 	conf.Alive = f.alive
-	f.vAddSelf(vU32(), nil)
-	present := vPick(2) == 1
-	if present {
+	// the claim is about a peer (absent or present in any state) or about the local node's own name while the
+	// node has not entered its table yet (the window between starting the listeners and the first self-announcement)
+	subj := vPeerA
+	switch vPick(3) {
+	case 0:
+		f.vAddSelf(vU32(), nil)
+	case 1:
+		f.vAddSelf(vU32(), nil)
 		ns := f.vAddNode(vPeerA, 0)
 		vAssume(vInNet(ns.Addr, withV6)) // invariant: every admitted address is allowed
+	case 2:
+		subj = vSelf
 	}
-	pre := f.vSnapshot(vPeerA)
+	pre := f.vSnapshot(subj)
 	alen := []int{4, 16, 5, 0}[vPick(4)]
-	a := alive{Incarnation: vU32(), Node: vPeerA, Addr: vBytes(alen), Port: vU16(), Meta: vBytes(vPick(2)), Vsn: []uint8{1, 5, 2, 0, 0, 0}}
+	a := alive{Incarnation: vU32(), Node: subj, Addr: vBytes(alen), Port: vU16(), Meta: vBytes(vPick(2)), Vsn: []uint8{1, 5, 2, 0, 0, 0}}
 	if alen == 0 {
 		a.Addr = nil
 	}
@@ -79,11 +86,11 @@ func H_C18_Admission() {
 		}
 		m.handleAlive(buf.Bytes()[1:], from)
 	case 3:
-		m.mergeState([]pushNodeState{{Name: vPeerA, Addr: a.Addr, Port: a.Port, Meta: a.Meta, Incarnation: a.Incarnation, State: StateAlive, Vsn: a.Vsn}})
+		m.mergeState([]pushNodeState{{Name: subj, Addr: a.Addr, Port: a.Port, Meta: a.Meta, Incarnation: a.Incarnation, State: StateAlive, Vsn: a.Vsn}})
 	}
-	post := f.vSnapshot(vPeerA)
+	post := f.vSnapshot(subj)
 	if !srcAllowed {
-		vAssert(f.vSameRecord(vPeerA, pre), "c18.bad-source.unchanged")
+		vAssert(f.vSameRecord(subj, pre), "c18.bad-source.unchanged")
 		vAssert(len(f.ev.log) == 0, "c18.bad-source.no-event")
 		vAssert(f.alive.calls == 0, "c18.bad-source.not-processed")
 		vAssert(post.present == pre.present, "c18.bad-source.not-admitted")
@@ -99,10 +106,13 @@ func H_C18_Admission() {
 		vAssert(vInNet(e.addr, withV6), "c18.event-address-allowed")
 	}
 	if !vInNet(a.Addr, withV6) {
-		vAssert(f.vSameRecord(vPeerA, pre), "c18.disallowed-claim.unchanged")
+		vAssert(f.vSameRecord(subj, pre), "c18.disallowed-claim.unchanged")
 		vAssert(len(f.ev.log) == 0, "c18.disallowed-claim.no-event")
-		vAssert(!f.vIsMember(vPeerA) || vIsMemberState(pre.present, pre.state), "c18.disallowed-claim.not-listed")
+		vAssert(!f.vIsMember(subj) || vIsMemberState(pre.present, pre.state), "c18.disallowed-claim.not-listed")
 		vCover("c18.disallowed-claim")
+		if subj == vSelf {
+			vCover("c18.disallowed-claim.own-name")
+		}
 	} else {
 		vCover("c18.allowed-claim")
 	}
